@@ -16,6 +16,7 @@
 #include <cfloat>
 #include <fcntl.h>
 #include <fstream>
+#include <functional>
 #include <memory>
 #include <sys/mman.h>
 
@@ -27,10 +28,10 @@ using namespace votca;
 using namespace votca::xtp;
 
 // ------------------------------------------------------------------ values
-enum Kind { IDX, INT, UINT, DBL, FLT, BOOL, STR, VIDX, VINT, VDBL, VSTR, MXD, MXF, VXD, RVXD, V3D, VV3D, TBL, NKIND };
+enum Kind { IDX, INT, UINT, DBL, FLT, BOOL, STR, VIDX, VINT, VDBL, VSTR, MXD, MXF, VXD, RVXD, V3D, VV3D, TBL, ESYS, NKIND };
 static const char *kindname[NKIND] = {"index", "int", "unsigned", "double", "float", "bool", "string", "vector-index", "vector-int",
                                       "vector-double", "vector-string", "matrix", "matrixf", "vectorxd", "rowvector", "vector3d",
-                                      "vec3list", "table"};
+                                      "vec3list", "table", "eigensystem"};
 struct Row { long id; std::string el; double pos[3]; long rank; double q[9]; };
 struct Val {
   std::string label;
@@ -43,6 +44,8 @@ struct Val {
   Eigen::MatrixXf mf;
   std::vector<Eigen::Vector3d> vv;
   std::vector<Row> rows;
+  int tblmode = 0;       // TBL: 0 = table.write(vector) as xtp does, 1 = writeToRow() row by row, 2 = two chunks write(buf,0,k), write(buf+k,k,n)
+  Eigen::MatrixXd m2, m3;  // ESYS: eigenvalues in m, eigenvectors in m2, eigenvectors2 in m3; info in n
 };
 
 static std::string hexbytes(const void *p, size_t n) {
@@ -100,6 +103,7 @@ static std::string canon(const Val &v) {
     case MXF: return canon_mat(v.mf);
     case VV3D: return canon_vv(v.vv);
     case TBL: return canon_rows(v.rows);
+    case ESYS: return canon_mat(v.m) + "|" + canon_mat(v.m2) + "|" + canon_mat(v.m3) + "|" + std::to_string(v.n);
     default: return "?";
   }
 }
@@ -117,6 +121,7 @@ static std::string elemtype(const Val &v) {
     case STR: case VSTR: return "str";
     case VV3D: return "vec3";
     case TBL: return "row";
+    case ESYS: return "esys";
     default: return "?";
   }
 }
@@ -130,31 +135,34 @@ static std::string dims(const Val &v) {
     case MXF: return std::to_string(v.mf.rows()) + "x" + std::to_string(v.mf.cols());
     case VV3D: return std::to_string(v.vv.size());
     case TBL: return std::to_string(v.rows.size()) + "x1";
+    case ESYS: return std::to_string(v.m.rows()) + "+" + std::to_string(v.m2.rows()) + "x" + std::to_string(v.m2.cols()) + "+" + std::to_string(v.m3.rows()) + "x" + std::to_string(v.m3.cols());
     default: return "1";
   }
 }
 static std::string sig(const Val &v) { return elemtype(v) + "/" + dims(v); }
+// size class of a container value (part of the failure key): the boundaries are those of decimal member
+// names (ind9|ind10, ind99|ind100) and of "a few" vs "many" elements
+static std::string sizeclass(long n) { return n == 0 ? "empty" : (n <= 10 ? "regular" : (n <= 100 ? "n11-100" : "n101+")); }
 static std::string shapeclass(const Val &v) {
   if (v.kind == MXD || v.kind == MXF) {
     long r = v.kind == MXD ? v.m.rows() : v.mf.rows(), c = v.kind == MXD ? v.m.cols() : v.mf.cols();
     if (r == 0 && c == 0) return "0x0";
     if (c == 0) return "Nx0";
     if (r == 0) return "0xN";
-    return v.block ? "block" : "regular";
+    if (v.block) return "block";
+    return sizeclass(std::max(r, c));
   }
-  bool empty = false;
   switch (v.kind) {
-    case STR: empty = v.s.empty(); break;
-    case VIDX: empty = v.vi.empty(); break;
-    case VINT: empty = v.vn.empty(); break;
-    case VDBL: empty = v.vd.empty(); break;
-    case VSTR: empty = v.vs.empty(); break;
-    case VXD: case RVXD: empty = v.m.size() == 0; break;
-    case VV3D: empty = v.vv.empty(); break;
-    case TBL: empty = v.rows.empty(); break;
-    default: break;
+    case STR: return v.s.empty() ? "empty" : "regular";
+    case VIDX: return sizeclass((long)v.vi.size());
+    case VINT: return sizeclass((long)v.vn.size());
+    case VDBL: return sizeclass((long)v.vd.size());
+    case VSTR: return sizeclass((long)v.vs.size());
+    case VXD: case RVXD: case ESYS: return sizeclass((long)v.m.size());
+    case VV3D: return sizeclass((long)v.vv.size());
+    case TBL: return sizeclass((long)v.rows.size());
+    default: return "regular";
   }
-  return empty ? "empty" : "regular";
 }
 
 static std::vector<Val> ALPHA;
@@ -230,6 +238,43 @@ static void build_alphabet() {
   { Val v; v.label = "t2b"; v.kind = TBL; v.rows = {mkrow(3, utf, 9.0), mkrow(4, "Og", 1e-300)}; add(v); }
 }
 
+// ---- sized container values: every container kind the API stores, with element counts that cross
+// 0,1,2,9,10,11,12,99,100,101 (thorough also 250, 1001), every element distinct.  They are not part of the
+// general op alphabet (that would square the pair counts); the "sizes" phase enumerates them on their own.
+static int NBASE = 0;
+static const long SIZES[12] = {0, 1, 2, 9, 10, 11, 12, 99, 100, 101, 250, 1001};
+struct SizedGroup { std::string name; std::vector<std::vector<int>> variants; bool table = false; };  // variants[j][size index]
+static std::vector<SizedGroup> SIZED;
+static void build_sized() {
+  NBASE = (int)ALPHA.size();
+  auto lab = [](const std::string &pre, long n, bool b) { return pre + "#" + std::to_string(n) + (b ? "b" : ""); };
+  auto group = [&](const std::string &name, int nvar, bool table, std::function<Val(long, int)> make) {
+    SizedGroup g; g.name = name; g.table = table; g.variants.resize(nvar);
+    for (int j = 0; j < nvar; j++) for (long n : SIZES) { Val v = make(n, j); g.variants[j].push_back((int)ALPHA.size()); add(v); }
+    SIZED.push_back(g);
+  };
+  group("vector-index", 2, false, [&](long n, int j) { Val v; v.label = lab("vi", n, j); v.kind = VIDX; for (long k = 0; k < n; k++) v.vi.push_back((j ? -1000003L : 7L) + 13 * k); return v; });
+  group("vector-int", 2, false, [&](long n, int j) { Val v; v.label = lab("vn", n, j); v.kind = VINT; for (long k = 0; k < n; k++) v.vn.push_back((j ? -50000 : 3) + 11 * (int)k); return v; });
+  group("vector-double", 2, false, [&](long n, int j) { Val v; v.label = lab("vd", n, j); v.kind = VDBL; for (long k = 0; k < n; k++) v.vd.push_back(j ? -3.0 - 1.25 * double(k) : 0.5 + double(k)); return v; });
+  group("vector-string", 2, false, [&](long n, int j) { Val v; v.label = lab("vs", n, j); v.kind = VSTR; for (long k = 0; k < n; k++) v.vs.push_back((j ? "T" : "s") + std::to_string(k) + std::string(size_t(k % 5), 'x')); return v; });
+  group("vec3list", 2, false, [&](long n, int j) { Val v; v.label = lab("q", n, j); v.kind = VV3D; for (long k = 0; k < n; k++) v.vv.push_back(Eigen::Vector3d((j ? 5000.0 : 0.0) + double(k), double(k) + 0.25, -double(k))); return v; });
+  auto seq = [](long r, long c, double seed) { Eigen::MatrixXd m(r, c); for (long i = 0; i < r; i++) for (long k = 0; k < c; k++) m(i, k) = seed + double(i * c + k); return m; };
+  group("vectorxd", 2, false, [&](long n, int j) { Val v; v.label = lab("vx", n, j); v.kind = VXD; v.m = seq(n, 1, j ? -7000.5 : 1.0); return v; });
+  group("rowvector", 2, false, [&](long n, int j) { Val v; v.label = lab("rv", n, j); v.kind = RVXD; v.m = seq(1, n, j ? -7000.5 : 1.0); return v; });
+  group("matrix-Nx2", 2, false, [&](long n, int j) { Val v; v.label = lab("mc", n, j); v.kind = MXD; v.m = seq(n, 2, j ? -9000.25 : 2.0); return v; });
+  group("matrix-2xN", 2, false, [&](long n, int j) { Val v; v.label = lab("mr", n, j); v.kind = MXD; v.m = seq(2, n, j ? -9000.25 : 2.0); return v; });
+  group("matrix-Nx0", 2, false, [&](long n, int j) { Val v; v.label = lab("mz", n, j); v.kind = MXD; v.m = Eigen::MatrixXd(n, 0); return v; });
+  group("matrix-0xN", 2, false, [&](long n, int j) { Val v; v.label = lab("zm", n, j); v.kind = MXD; v.m = Eigen::MatrixXd(0, n); return v; });
+  group("matrixf-Nx2", 2, false, [&](long n, int j) { Val v; v.label = lab("mf", n, j); v.kind = MXF; v.mf = seq(n, 2, j ? -4000.5 : 2.0).cast<float>(); return v; });
+  group("eigensystem", 2, false, [&](long n, int j) { Val v; v.label = lab("es", n, j); v.kind = ESYS; v.m = seq(n, 1, j ? -11.5 : 0.5); v.m2 = seq(n, 2, j ? 70000.0 : 3.0); v.m3 = seq(n, 1, j ? -70000.0 : -3.0); v.n = int((n + j) % 3); return v; });
+  // tables: variant 0/1 whole-table write (two contents), 2 row by row, 3 two chunks
+  group("table", 4, true, [&](long n, int j) {
+    Val v; v.label = lab(j == 2 ? "tr" : (j == 3 ? "tc" : "t"), n, j == 1); v.kind = TBL; v.tblmode = j <= 1 ? 0 : j - 1;
+    for (long k = 0; k < n; k++) v.rows.push_back(mkrow((j ? 100000 * j : 0) + k + 1, (j ? "Z" : "E") + std::to_string(k), (j ? -1000.0 * j : 1.0) + 0.5 * double(k)));
+    return v;
+  });
+}
+
 // ------------------------------------------------------------------ typed write / read on the real code
 static void write_val(CheckpointWriter &w, const Val &v, const std::string &name) {
   switch (v.kind) {
@@ -270,14 +315,24 @@ static void write_val(CheckpointWriter &w, const Val &v, const std::string &name
         d.Q00 = r.q[0]; d.Q11c = r.q[1]; d.Q11s = r.q[2]; d.Q10 = r.q[3]; d.Q20 = r.q[4];
         d.Q21c = r.q[5]; d.Q21s = r.q[6]; d.Q22c = r.q[7]; d.Q22s = r.q[8];
       }
-      table.write(dv);
+      size_t n = dv.size();
+      if (v.tblmode == 0) table.write(dv);
+      else if (v.tblmode == 1) { for (size_t k = 0; k < n; k++) table.writeToRow(&dv[k], k); }
+      else { size_t k = n / 2; if (k > 0) table.write(dv.data(), 0, k); if (n > k) table.write(dv.data() + k, k, n); }
+      break;
+    }
+    case ESYS: {
+      tools::EigenSystem sys;
+      sys.eigenvalues() = Eigen::VectorXd(v.m); sys.eigenvectors() = v.m2; sys.eigenvectors2() = v.m3;
+      sys.info() = static_cast<Eigen::ComputationInfo>(v.n);
+      w(sys, name);
       break;
     }
     default: throw std::logic_error("kind");
   }
 }
 // read `name` as kind k; dirty = the target variable holds unrelated content before the call
-static std::string read_canon(CheckpointReader &r, Kind k, const std::string &name, bool dirty) {
+static std::string read_canon(CheckpointReader &r, Kind k, const std::string &name, bool dirty, int tmode = 0) {
   switch (k) {
     case IDX: { Index x = dirty ? 424242 : 0; r(x, name); long y = x; return hexv(y); }
     case INT: { int x = dirty ? 4242 : 0; r(x, name); return hexv(x); }
@@ -300,7 +355,10 @@ static std::string read_canon(CheckpointReader &r, Kind k, const std::string &na
       CptTable table = r.openTable<StaticSite>(name);
       std::vector<StaticSite::data> dv(table.numRows());
       for (auto &d : dv) d.element = nullptr;
-      table.read(dv);
+      size_t n = dv.size();
+      if (tmode == 0) table.read(dv);                                                         // whole table, as xtp does
+      else if (tmode == 1) { for (size_t k2 = 0; k2 < n; k2++) table.readFromRow(&dv[k2], k2); }  // row by row
+      else { size_t h = n / 2; if (h > 0) table.read(dv.data(), 0, h); if (n > h) table.read(dv.data() + h, h, n); }
       std::vector<Row> rows;
       for (auto &d : dv) {
         Row q; q.id = d.id; q.el = d.element ? std::string(d.element) : std::string("<null>");
@@ -310,6 +368,12 @@ static std::string read_canon(CheckpointReader &r, Kind k, const std::string &na
         rows.push_back(q);
       }
       return canon_rows(rows);
+    }
+    case ESYS: {
+      tools::EigenSystem sys;
+      if (dirty) { sys.eigenvalues() = Eigen::VectorXd::Constant(2, 42.0); sys.eigenvectors() = Eigen::MatrixXd::Constant(2, 2, 42.0); sys.eigenvectors2() = Eigen::MatrixXd::Constant(1, 2, 42.0); sys.info() = Eigen::InvalidInput; }
+      r(sys, name);
+      return canon_mat(sys.eigenvalues()) + "|" + canon_mat(sys.eigenvectors()) + "|" + canon_mat(sys.eigenvectors2()) + "|" + std::to_string(int(sys.info()));
     }
     default: throw std::logic_error("kind");
   }
@@ -356,6 +420,17 @@ static bool parse_hist(const std::string &cas, char &init, std::vector<Op> &ops)
 static std::string slot_key(const std::vector<int> &w) {
   if (w.empty()) return "never-written";
   const Val &cur = ALPHA[w.back()];
+  // row-wise / chunk-wise table output: what matters is whether some row is addressed with startIdx > 0
+  if (cur.kind == TBL && cur.tblmode && cur.rows.size() >= 2)
+    return "table-write-startidx-gt0";  // CptTable::write(buffer, startIdx > 0, endIdx), directly or through writeToRow
+  if (cur.kind == ESYS) {
+    if (w.size() == 1) return "fresh-eigensystem-" + shapeclass(cur);
+    bool same = true;
+    for (size_t k = 0; k + 1 < w.size(); k++) if (ALPHA[w[k]].kind != ESYS || dims(ALPHA[w[k]]) != dims(cur)) same = false;
+    return std::string(same ? "overwrite-same-shape-eigensystem" : "overwrite-eigensystem-different-size") + "-" + shapeclass(cur);
+  }
+  // many-element containers get their size class appended (member names ind10.., ind100..)
+  std::string sc = shapeclass(cur), big = (sc == "n11-100" || sc == "n101+") ? "-" + sc : "";
   Fam f = fam(cur.kind);
   bool ns_cur = f != SCALAR;  // link namespace (datasets/groups) vs attribute namespace
   bool any = false, clash = false, etype = false, shape = false, longer_before = false;
@@ -369,17 +444,17 @@ static std::string slot_key(const std::vector<int> &w) {
     else if (dims(e) != dims(cur)) shape = true;
   }
   if (!any) return std::string("fresh-") + kindname[cur.kind] + "-" + shapeclass(cur);
-  if (clash) return "overwrite-array-vec3list-clash";
+  if (clash) return "overwrite-array-vec3list-clash" + big;
   if (f == SCALAR) {
     if (!etype) return std::string("overwrite-same-type-") + kindname[cur.kind];
     bool strinvolved = cur.kind == STR;
     for (size_t k = 0; k + 1 < w.size(); k++) if (ALPHA[w[k]].kind == STR) strinvolved = true;
     return strinvolved ? "overwrite-scalar-string-numeric-change" : "overwrite-scalar-numeric-type-change";
   }
-  if (f == VEC3LIST) return longer_before ? "overwrite-vec3list-shorter" : (shape ? "overwrite-vec3list-longer" : "overwrite-same-shape-vec3list");
-  if (etype) return "overwrite-array-different-elemtype";
-  if (shape) return cur.kind == TBL ? "overwrite-table-different-rows" : "overwrite-array-different-shape";
-  return std::string("overwrite-same-shape-") + kindname[cur.kind];
+  if (f == VEC3LIST) return (longer_before ? "overwrite-vec3list-shorter" : (shape ? "overwrite-vec3list-longer" : "overwrite-same-shape-vec3list")) + big;
+  if (etype) return "overwrite-array-different-elemtype" + big;
+  if (shape) return (cur.kind == TBL ? "overwrite-table-different-rows" : "overwrite-array-different-shape") + big;
+  return std::string("overwrite-same-shape-") + kindname[cur.kind] + big;
 }
 
 struct Model {
@@ -409,6 +484,14 @@ static std::string slurp(const std::string &p) {
   return ss.str();
 }
 static std::string clip(const std::string &s) { return s.size() > 160 ? s.substr(0, 160) + "..." : s; }
+// both strings around their first difference (large containers: the interesting element is far from the start)
+static std::string diffat(const std::string &got, const std::string &expect) {
+  size_t k = 0;
+  while (k < got.size() && k < expect.size() && got[k] == expect[k]) k++;
+  if (k < 100) return "read back " + clip(got) + " expected " + clip(expect);
+  size_t from = k - 60;
+  return "read back " + clip(got.substr(0, 40)) + " ...[first difference at char " + std::to_string(k) + "]... " + clip(got.substr(from, 140)) + "  EXPECTED there ..." + clip(expect.substr(from, 140));
+}
 
 static CheckpointAccessLevel lvl(char c) {
   return c == 'R' ? CheckpointAccessLevel::READ : (c == 'M' ? CheckpointAccessLevel::MODIFY : CheckpointAccessLevel::CREATE);
@@ -446,20 +529,22 @@ static Fail check_slot(CheckpointFile &f, const Model &M, int loc, int name, int
     return {};
   }
   const Val &v = ALPHA[it->second.back()];
+  if (pass >= 2 && v.kind != TBL) return {};  // passes 2,3: table read row by row / in two chunks
   std::string expect = canon(v), got;
   try {
     CheckpointReader r = reader_for(f, loc, childroute);
-    got = read_canon(r, v.kind, NAMES[name], pass == 1);
+    got = read_canon(r, v.kind, NAMES[name], pass == 1, pass >= 2 ? pass - 1 : 0);
   } catch (const std::exception &e) {
     got = std::string("EXCEPTION ") + e.what();
   }
-  if (got != expect)
-    return {"mismatch", slot, pass, where + " (" + v.label + ", " + kindname[v.kind] + (pass ? ", read into a non-empty target" : "") + ") read back " + clip(got) + " expected " + clip(expect)};
+  static const char *how[4] = {"", ", read into a non-empty target", ", read with readFromRow() row by row", ", read with read(buf,0,n/2) + read(buf+n/2,n/2,n)"};
+  if (got != expect) return {"mismatch", slot, pass, where + " (" + v.label + ", " + kindname[v.kind] + how[pass] + ") " + diffat(got, expect)};
   return {};
 }
 
 // Replay a history on a fresh file.  extra = canonical state key.  On failure key = "sym|slot|pass".
-static bsx::Outcome run_history(char init, const std::vector<Op> &ops, const std::string &file, bool allkinds, bool dirty) {
+static bsx::Outcome run_history(char init, const std::vector<Op> &ops, const std::string &file, bool allkinds, int mode) {
+  const bool dirty = mode != 0;  // extra read pass `mode` (1 pre-filled target, 2/3 table read row-wise / chunked) after the plain checks
   bsx::Outcome o;
   std::string cas = histstr(init, ops);
   auto failwith = [&](const Fail &f) {
@@ -580,7 +665,7 @@ static bsx::Outcome run_history(char init, const std::vector<Op> &ops, const std
     if (primary.any()) return failwith(primary);
     if (dirty && !order.empty()) {
       int slot = order[0];
-      Fail f = check_slot(fresh, M, slot / 2, slot % 2, 1, allkinds, false);
+      Fail f = check_slot(fresh, M, slot / 2, slot % 2, mode, allkinds, false);
       if (f.any()) { f.what = "fresh READ handle: " + f.what; return failwith(f); }
     }
   } catch (const std::exception &e) {
@@ -613,6 +698,10 @@ static std::string final_key(char init, const std::vector<Op> &ops, const std::s
     }
   }
   std::string base = slot_key(wr[slot]);
+  if (pass >= 2) {
+    bool gt0 = !wr[slot].empty() && ALPHA[wr[slot].back()].rows.size() >= 2;
+    return gt0 ? "table-read-startidx-gt0" : "table-read-first-row-only";  // CptTable::read(buffer, startIdx > 0, endIdx) / readFromRow
+  }
   if (pass == 1) return wr[slot].empty() ? "dirty-target-never-written" : std::string("dirty-target-") + kindname[ALPHA[wr[slot].back()].kind];
   if (ops.empty()) return "initial-" + base;
   const Op &last = ops.back();
@@ -638,8 +727,10 @@ static void resolve(char init, const std::vector<Op> &ops, bsx::Outcome &o, int 
   o.key = final_key(init, ops, sym, slot, pass);
 }
 
-struct Cand { char init; std::vector<Op> ops; bool dirty = false; };
-static std::string candstr(const Cand &c) { return (c.dirty ? "mode=dirty;" : "") + histstr(c.init, c.ops); }
+struct Cand { char init; std::vector<Op> ops; int mode = 0; };  // mode: extra read pass, see run_history
+static const char *MODENAME[4] = {"", "dirty", "rowread", "chunkread"};
+static int modeof(const std::string &m) { for (int k = 1; k < 4; k++) if (m == MODENAME[k]) return k; return 0; }
+static std::string candstr(const Cand &c) { return (c.mode ? std::string("mode=") + MODENAME[c.mode] + ";" : "") + histstr(c.init, c.ops); }
 static bool g_poisoned = false;  // child-local; never set: with ASan a memory error kills the child at once (a non-fatal failure leaves the heap intact)
 static bool g_silenced = false;
 
@@ -1031,6 +1122,7 @@ static int main_overlap(bsx::Args &a) {
 
 int main(int argc, char **argv) {
   build_alphabet();
+  build_sized();
   bsx::Args a = bsx::parse(argc, argv);
   g_step = (volatile int *)mmap(nullptr, 4096, PROT_READ | PROT_WRITE, MAP_SHARED | MAP_ANONYMOUS, -1, 0);
   if (g_step == MAP_FAILED) { perror("mmap"); return 2; }
@@ -1040,17 +1132,17 @@ int main(int argc, char **argv) {
     int n = atoi(a.kv["bench"].c_str());
     bool ak = a.kv.count("allkinds") > 0;
     auto t0 = std::chrono::steady_clock::now();
-    for (int k = 0; k < n; k++) { auto o = run_history(c.init, c.ops, "bench.h5", ak, false); if (!o.ok) { printf("fails %s\n", o.what.c_str()); break; } }
+    for (int k = 0; k < n; k++) { auto o = run_history(c.init, c.ops, "bench.h5", ak, 0); if (!o.ok) { printf("fails %s\n", o.what.c_str()); break; } }
     printf("%.3f ms wall, %.3f ms cpu per history\n", 1e3 * std::chrono::duration<double>(std::chrono::steady_clock::now() - t0).count() / n, 1e3 * double(clock()) / CLOCKS_PER_SEC / n);
     return 0;
   }
   if (a.has_case) {
     Cand c;
     if (!parse_hist(a.cas, c.init, c.ops)) { fprintf(stderr, "bad case string\n"); return 2; }
-    c.dirty = bsx::kvs(a.cas)["mode"] == "dirty";
+    c.mode = modeof(bsx::kvs(a.cas)["mode"]);
     bsx::Outcome o;
     *g_step = -2;
-    bsx::contained(0, 1, [&](long long) { return run_history(c.init, c.ops, "case.h5", true, c.dirty); }, [&](long long, const bsx::Outcome &r) { o = r; });
+    bsx::contained(0, 1, [&](long long) { return run_history(c.init, c.ops, "case.h5", true, c.mode); }, [&](long long, const bsx::Outcome &r) { o = r; });
     ::remove("case.h5");
     if (o.ok) { printf("case holds\n"); return 0; }
     resolve(c.init, c.ops, o, *g_step);
@@ -1066,7 +1158,7 @@ int main(int argc, char **argv) {
   auto O = [&](char l) { Op o{}; o.kind = 'O'; o.level = l; return o; };
   auto Rd = [&](int loc, int name) { Op o{}; o.kind = 'R'; o.loc = loc; o.name = name; return o; };
   std::vector<Op> full, deep, deeper;
-  for (char rt : {'r', 'a', 'c', 'd'}) for (int nm = 0; nm < 2; nm++) for (int v = 0; v < (int)ALPHA.size(); v++) full.push_back(W(rt, nm, v));
+  for (char rt : {'r', 'a', 'c', 'd'}) for (int nm = 0; nm < 2; nm++) for (int v = 0; v < NBASE; v++) full.push_back(W(rt, nm, v));
   for (char l : {'R', 'M', 'C'}) full.push_back(O(l));
   for (int loc = 0; loc < 3; loc++) for (int nm = 0; nm < 2; nm++) full.push_back(Rd(loc, nm));
   auto labels = [&](std::initializer_list<const char *> ls) { std::vector<int> r; for (auto l : ls) r.push_back(BYLABEL.at(l)); return r; };
@@ -1094,13 +1186,17 @@ int main(int argc, char **argv) {
   const std::set<std::string> &set3 = thorough ? deepset : deeperset;
   R.rule = "explicit-state BFS over op histories W(path,name,value)/Reopen(READ|MODIFY|CREATE)/R(path,name) on a real HDF5 file (own file per history, forked children, ASan/UBSan on the "
            "harness and the xtp sources) from two initial handles (CREATE, MODIFY on a missing file); paths /, /a, /a/b (via openChild and via getWriter(\"/a/b\")), names x,y; " +
-           std::to_string(ALPHA.size()) + " typed values (Index/int/unsigned/double/float/bool/string, vector<Index/int/double/string>, MatrixXd 0x0/3x0/0x3/1x4/4x1/1x1/2x3/3x2/3x3/37x53/"
+           std::to_string(NBASE) + " typed values (Index/int/unsigned/double/float/bool/string, vector<Index/int/double/string>, MatrixXd 0x0/3x0/0x3/1x4/4x1/1x1/2x3/3x2/3x3/37x53/"
            "non-contiguous block, MatrixXf, VectorXd, RowVectorXd, Vector3d, vector<Vector3d>, CptTable<StaticSite> rows 0/1/2). depth 1: all " + std::to_string(full.size()) +
            " ops (+ every write re-read into a pre-filled target); depth 2: " +
            (thorough ? "every value over every value on the same slot (all slots and routes), every reopen/read and every op of the reduced alphabet after every depth-1 state"
                      : "every value over every value on the same slot (/:x and /a/b:x), every reopen/read after every depth-1 state") +
            ", all pairs of the reduced alphabet (" + std::to_string(deep.size()) + " ops: values i7,dpi,sa,vd3,vd1,m2x3,m3x2,q2,q1,t2) from both starts; depth 3: " + std::to_string(ops3.size()) +
            "-op alphabet" + (thorough ? "; depth 4: " + std::to_string(deepest.size()) + "-op alphabet (i7,vd3,vd1,q2 on /:x,y and /a/b:x,y)" : " (i7,sa,vd3,vd1,m2x3,q2 on /:x,y and /a/b:x,y)") +
+           ". Sizes phase: every container kind (vector<Index|int|double|string>, vector<Vector3d>, VectorXd, RowVectorXd, MatrixXd Nx2/2xN/Nx0/0xN, MatrixXf Nx2, tools::EigenSystem, "
+           "CptTable<StaticSite> written whole / row by row with writeToRow / in two chunks) with N in {0,1,2,9,10,11,12,99,100,101" + std::string(thorough ? ",250,1001" : "") + "}, all elements distinct, on /:x and /a/b:x: "
+           "single write (+ re-read into a pre-filled target; tables also re-read with readFromRow and chunked read), every size over every size with different content" +
+           std::string(thorough ? ", the same with a MODIFY reopen in between" : "") +
            ". Oracle: std::map model; after each history a fresh READ handle reads every slot: bit-identical payload+shape, "
            "error for never-written names (every kind at depth<=1, attribute/dataset/group kinds deeper), READ-handle writes rejected and file bytes unchanged. state = handle level + per-slot current "
            "value + set of storage signatures written since truncation; distinct_nontrivial = distinct states reached";
@@ -1121,7 +1217,7 @@ int main(int argc, char **argv) {
             if (!g_silenced) { g_silenced = true; int fd = open("/dev/null", O_WRONLY); if (fd >= 0) { dup2(fd, 2); close(fd); } }
             *g_step = -2;
             const Cand &c = cand[i];
-            o = run_history(c.init, c.ops, "h" + std::to_string(depth) + "_" + std::to_string(i) + ".h5", depth <= 1, c.dirty);
+            o = run_history(c.init, c.ops, "h" + std::to_string(depth) + "_" + std::to_string(i) + ".h5", depth <= 1, c.mode);
             return o;
           },
           [&](long long i, const bsx::Outcome &res) {
@@ -1139,7 +1235,7 @@ int main(int argc, char **argv) {
               R.counters["failing_histories"]++;
               return;
             }
-            if (c.dirty) return;
+            if (c.mode) return;
             if (seen.insert(o.extra).second) {
               if (count) { states++; R.cls(o.cls); }
               if (next) next->push_back(c);
@@ -1161,7 +1257,7 @@ int main(int argc, char **argv) {
       // shard by a hash of the op (the alphabet has 4*16 values: plain round robin would give a shard the same values on every path)
       if (a.mine((long long)(bsx::fnv(opstr(op) + init + std::to_string(idx++)) % 1000003ull))) {
         d1.push_back({init, {op}});
-        if (init == 'C' && op.kind == 'W' && op.route != 'd') d1.push_back({init, {op}, true});
+        if (init == 'C' && op.kind == 'W' && op.route != 'd') d1.push_back({init, {op}, 1});
       }
     }
   }
@@ -1216,12 +1312,40 @@ int main(int argc, char **argv) {
     R.counters["depth4_histories"] = (long long)d4.size();
   }
 
+  // ---- sizes phase: container sizes across the decimal-name and small/large boundaries (see build_sized)
+  {
+    const int NS = thorough ? 12 : 10;
+    std::vector<Cand> sz;
+    auto push = [&](const Cand &c) {
+      if (a.mine((long long)(bsx::fnv(candstr(c)) % 1000003ull))) sz.push_back(c);
+    };
+    for (char rt : {'r', 'c'})
+      for (auto &g : SIZED) {
+        for (size_t j = 0; j < g.variants.size(); j++)
+          for (int k = 0; k < NS; k++) {
+            int v = g.variants[j][k];
+            push({'C', {W(rt, 0, v)}, 0});
+            if (j == 0) push({'C', {W(rt, 0, v)}, 1});
+            if (j == 0 && g.table) { push({'C', {W(rt, 0, v)}, 2}); push({'C', {W(rt, 0, v)}, 3}); }
+          }
+        for (int k1 = 0; k1 < NS; k1++)
+          for (size_t j = 1; j < g.variants.size(); j++)
+            for (int k2 = 0; k2 < NS; k2++) {
+              push({'C', {W(rt, 0, g.variants[0][k1]), W(rt, 0, g.variants[j][k2])}, 0});
+              if (thorough) push({'C', {W(rt, 0, g.variants[0][k1]), O('M'), W(rt, 0, g.variants[j][k2])}, 0});
+            }
+      }
+    evaluate(sz, 7, nullptr);
+    R.counters["sizes_histories"] = (long long)sz.size();
+  }
+
   R.states = states; R.transitions = transitions; R.traces = transitions;
   R.assumptions = {
       "a value is compared through a canonical string of its shape and raw payload bytes (NaN/-0.0/denormals bit-exact)",
       "a slot is read back with the C++ type it was last written with; reading with another type is not specified by the statement and not checked",
       "getWriter(\"/a/b\") while /a does not exist may be refused (then nothing must change); the openChild route must always work",
       "strings with embedded NUL are outside the alphabet (variable-length C strings)",
+      "CptTable::write/read(buffer,start,end): buffer points at row `start` (the memory space has end-start rows), as writeToRow/readFromRow pass it",
       "ASan (memcpy/heap interceptors; libhdf5 itself is not instrumented) decides whether writer/reader stay inside the caller's buffers",
       "states are de-duplicated per shard; the per-shard sums of `states` may count a state reached in two shards twice, distinct_nontrivial is exact",
       "equal canonical state (current values + set of storage signatures ever written per slot + handle level) is assumed to imply equal future behaviour"};
